@@ -1,0 +1,20 @@
+//go:build verif
+
+package proxy
+
+// Hooks for the verification harness in /verif. Compiled only with `-tags verif`.
+
+// VerifParseProtocolVersion exposes the option parser used for --protocol-version / --max-protocol-version.
+func VerifParseProtocolVersion(s string) (version uint8, ok bool) {
+	v, ok := parseProtocolVersion(s)
+	return uint8(v), ok
+}
+
+// VerifUnmarshalConsistency exposes the consistency-name parser used for the write-consistency options.
+func VerifUnmarshalConsistency(s string) (level uint16, ok bool) {
+	var w clWrapper
+	if err := w.UnmarshalText([]byte(s)); err != nil {
+		return 0, false
+	}
+	return uint16(w.ConsistencyLevel), true
+}
